@@ -44,11 +44,21 @@ var verifC17Src = []string{
 	"select id, lag(v, -1, -7) over (partition by p order by k) from t",                                 // 30: a negative offset reaches no row: the default
 	"select id, lead(v, -2) over (partition by p order by k) from t",                                    // 31
 	"select id, lag(v, 9223372036854775807, -7) over (partition by p order by k) from t",                // 32
+	"select id, count(distinct v) over (partition by p order by k) from t",                              // 33: DISTINCT over a running frame
+	"select id, count(distinct v) over (partition by p order by k rows between unbounded preceding and 1 following) from t", // 34
+	"select id, count(distinct v) over (partition by p order by k rows between 1 preceding and current row) from t",         // 35
+	"select id, count(distinct v) over (partition by p) from t",                                         // 36
+	"select id, pick(v, k) over (partition by p) from t",                                                // 37: a user-defined aggregate whose only parameter is optional, given per row
+	"select id, pick(v) over (partition by p order by k) from t",                                        // 38: the default of that parameter
+	"select id, cnt(v) over (partition by p order by k rows between 1 preceding and current row) from t", // 39: a user-defined aggregate over a frame
 }
 
 var verifC17Queries []parser.SelectQuery
+var verifC17Decl []parser.Statement
 
 func VerifC17Setup() {
+	verifC17Decl = verifParse(`declare pick aggregate (list, @w default -5) as begin return @w; end;
+		declare cnt aggregate (list) as begin var @c := 0; var @x; while @x in list do if @x is not null then @c := @c + 1; end if; end while; return @c; end;`)
 	for _, s := range verifC17Src {
 		verifC17Queries = append(verifC17Queries, verifParseSelect(s))
 	}
@@ -59,9 +69,15 @@ func VerifC17Setup() {
 // column, against the textbook per-partition / per-frame definition.
 func VerifC17Analytic() {
 	tx := verifNewTx()
-	scope := NewReferenceScope(tx)
+	tx.Flags.Quiet = true
+	proc := NewProcessor(tx)
+	scope := proc.ReferenceScope
 	n := 1 + verifChoice("n", verifBound(3, 4))
 	qi := verifChoice("query", len(verifC17Src))
+	if qi >= 37 && qi <= 39 {
+		_, derr := proc.Execute(verifCtx(), verifC17Decl)
+		verifAssert("the aggregates are declared", derr == nil)
+	}
 	part := make([]int, n)
 	key := make([]int64, n)
 	vnull := make([]bool, n)
@@ -267,6 +283,44 @@ func VerifC17Analytic() {
 			verifAssert("LAG with an offset that reaches no row: the default", isInt(-7))
 		case 31:
 			verifAssert("LEAD with an offset that reaches no row: NULL", value.IsNull(view.RecordSet[r][1][0]))
+		case 33, 34, 35, 36:
+			lo, hi := 0, pos
+			switch qi {
+			case 34:
+				hi = pos + 1
+			case 35:
+				lo = pos - 1
+			case 36:
+				hi = m - 1
+			}
+			c := 0
+			for a := lo; a <= hi; a++ {
+				if a < 0 || a >= m || vnull[mem[a]] {
+					continue
+				}
+				dup := false
+				for b := lo; b < a; b++ {
+					if b >= 0 && b < m && !vnull[mem[b]] && val[mem[b]] == val[mem[a]] {
+						dup = true
+					}
+				}
+				if !dup {
+					c++
+				}
+			}
+			verifAssert("COUNT(DISTINCT) over the row's frame", isInt(int64(c)))
+		case 37:
+			verifAssert("a user-defined aggregate gets the argument of its own row", isInt(key[id]))
+		case 38:
+			verifAssert("a user-defined aggregate gets the default of an omitted argument", isInt(-5))
+		case 39:
+			c := 0
+			for a := pos - 1; a <= pos; a++ {
+				if a >= 0 && !vnull[mem[a]] {
+					c++
+				}
+			}
+			verifAssert("a user-defined aggregate sees exactly the rows of the frame", isInt(int64(c)))
 		case 24:
 			verifAssert("COUNT over an empty frame", isInt(0))
 		case 25:
